@@ -476,14 +476,38 @@ fn exec_c<C: Suite>(scen: &Scenario) -> Exec {
         // The statement promises: whatever aggregation returns, a returned signature verifies. (Refusing an inconsistent
         // identifier set outright is how the library achieves that today; an implementation that ignores a surplus entry
         // and still returns the VALID signature would not break the property, so only an invalid result is flagged.)
+        // Taproot-tweaked sessions: the dedicated entry point as well (it derives its own tweaked package from the raw one)
+        let tweak_ctx: Option<(PublicKeyPackage<C>, Option<Vec<u8>>)> = match &sess[0].2 {
+            SignMode::Tweak(root) => sim.history.iter().find_map(|r| match r {
+                Record::Session { inst, pk, .. } if *inst == sess[0].0 => Some((pk.clone(), root.as_ref().and_then(|h| hex::decode(h).ok()))),
+                _ => None,
+            }),
+            _ => None,
+        };
         for (name, m) in [("missing share", &missing), ("share under an identifier outside the package", &renamed), ("surplus share", &surplus)] {
-            for (mname, r) in aggregate_all::<C>(&a.package, m, &a.pk) {
+            let mut results = aggregate_all::<C>(&a.package, m, &a.pk);
+            if let Some((raw_pk, root)) = &tweak_ctx {
+                results.push(("aggregate_with_tweak", C::aggregate_with_tweak(&a.package, m, raw_pk, root.as_deref())));
+                rep.probe("identifier_set_cases_with_tweak");
+            }
+            for (mname, r) in results {
                 rep.evaluations += 1;
-                if let Ok(sig) = r {
-                    if a.pk.verifying_key().verify(a.package.message(), &sig).is_err() {
-                        return Exec::Violation(Violation::new("C04", "C04.invalid_signature_released", format!("{mname} given a share map with a {name} returned Ok with a signature that does NOT verify")), rep);
+                match r {
+                    Ok(sig) => {
+                        if a.pk.verifying_key().verify(a.package.message(), &sig).is_err() {
+                            return Exec::Violation(Violation::new("C04", "C04.invalid_signature_released", format!("{mname} given a share map with a {name} returned Ok with a signature that does NOT verify")), rep);
+                        }
+                        rep.probe("identifier_set_mismatch_tolerated_with_valid_signature");
                     }
-                    rep.probe("identifier_set_mismatch_tolerated_with_valid_signature");
+                    // every submitted share is the honest one of a real signer: whatever the error, it must not name any of them
+                    Err(e) => {
+                        if let Some(c) = e.culprits().iter().find(|c| ids.contains(c)) {
+                            return Exec::Violation(
+                                Violation::new("C04", "C04.honest_participant_blamed", format!("{mname} given a share map with a {name} (all submitted shares are honest) fails with {e:?}, which names signer {}", hexs(&c.serialize()))),
+                                rep,
+                            );
+                        }
+                    }
                 }
             }
         }
